@@ -2133,13 +2133,21 @@ class Transport(threading.Thread, ClosingContextManager):
             reply.add_byte(cMSG_REQUEST_FAILURE)
         # Channel opens let us reject w/ a specific type + message.
         elif ptype == MSG_CHANNEL_OPEN:
-            kind = message.get_text()  # noqa
+            kind = message.get_string()  # noqa
             chanid = message.get_int()
             reply.add_byte(cMSG_CHANNEL_OPEN_FAILURE)
             reply.add_int(chanid)
             reply.add_int(OPEN_FAILED_ADMINISTRATIVELY_PROHIBITED)
             reply.add_string("")
             reply.add_string("en")
+        else:
+            # replies to requests we cannot have made (nothing else reaches
+            # this point): there is no sensible refusal to send back
+            raise SSHException(
+                "Message type {:d} received before authentication".format(
+                    ptype
+                )
+            )
         # NOTE: Post-open channel messages do not need checking; the above will
         # reject attempts to open channels, meaning that even if a malicious
         # user tries to send a MSG_CHANNEL_REQUEST, it will simply fall under
